@@ -93,8 +93,18 @@ func loadEngine(repo, theoryDir string) (*engine, error) {
 	return e, nil
 }
 
+// baseFuncName: "f#view" names a further contract block for function f (verified separately against
+// the same SSA, with its own theories; call sites use the block without suffix).
+func baseFuncName(n string) string {
+	if i := strings.Index(n, "#"); i >= 0 {
+		return n[:i]
+	}
+	return n
+}
+
 // anyFuncByName: a function of /repo, or (for assumed contracts) of a dependency, by canonical name.
 func (e *engine) anyFuncByName(name string) *ssa.Function {
+	name = baseFuncName(name)
 	if f := e.funcByName[name]; f != nil {
 		return f
 	}
@@ -119,7 +129,7 @@ func (e *engine) generate(filter func(b *block) bool) []*fnResult {
 	var out []*fnResult
 	for _, n := range names {
 		b := e.db.funcs[n]
-		fn := e.funcByName[n]
+		fn := e.funcByName[baseFuncName(n)]
 		if fn == nil {
 			// contract binds to nothing: reported as a failed obligation (vacuity guard i)
 			out = append(out, &fnResult{name: n, obligs: []*oblig{{name: n + "/unmapped.function", kind: "unmapped", fn: n, goal: "false", result: "sat", solver: "structural", props: b.props, clause: "contract block binds to no function in /repo", model: "function not found"}}})
